@@ -19,11 +19,14 @@ class InvertedBooleanCheckTransformer(LibcstResultTransformer):
         if isinstance(updated_node.operator, cst.Not) and isinstance(
             (comparison := updated_node.expression), cst.Comparison
         ):
-            return self.report_new_comparison(original_node, comparison)
+            return self.report_new_comparison(original_node, updated_node, comparison)
         return updated_node
 
     def report_new_comparison(
-        self, original_node: cst.UnaryOperation, comparison: cst.Comparison
+        self,
+        original_node: cst.UnaryOperation,
+        updated_node: cst.UnaryOperation,
+        comparison: cst.Comparison,
     ) -> cst.BaseExpression:
         if len(comparison.comparisons) == 1 and isinstance(
             comparison.comparisons[0].operator, cst.Is
@@ -31,9 +34,7 @@ class InvertedBooleanCheckTransformer(LibcstResultTransformer):
             # Handle 'not status is True' -> 'not status'
             if comparison.comparisons[0].comparator.value == "True":
                 self.report_change(original_node)
-                return cst.UnaryOperation(
-                    operator=cst.Not(), expression=comparison.left
-                )
+                return updated_node.with_changes(expression=comparison.left)
 
             # Handle 'not status is False' -> 'status'
             if comparison.comparisons[0].comparator.value == "False":
@@ -41,13 +42,24 @@ class InvertedBooleanCheckTransformer(LibcstResultTransformer):
                 return comparison.left
 
         inverted_comparisons = self._invert_comparisons(comparison)
+        if inverted_comparisons is None:
+            return updated_node
 
         self.report_change(original_node)
-        return cst.Comparison(left=comparison.left, comparisons=inverted_comparisons)
+        return comparison.with_changes(
+            comparisons=inverted_comparisons,
+            lpar=[*updated_node.lpar, *comparison.lpar],
+            rpar=[*comparison.rpar, *updated_node.rpar],
+        )
 
     def _invert_comparisons(
         self, comparison: cst.Comparison
-    ) -> list[cst.ComparisonTarget]:
+    ) -> list[cst.ComparisonTarget] | None:
+        # `not a == b == c` means `not (a == b and b == c)`: no chain of
+        # inverted operators is equivalent to it
+        if len(comparison.comparisons) != 1:
+            return None
+
         inverted_comparisons = []
         for comparison_op in comparison.comparisons:
             match comparison_op.operator:
@@ -63,8 +75,16 @@ class InvertedBooleanCheckTransformer(LibcstResultTransformer):
                     new_operator = cst.GreaterThan()
                 case cst.GreaterThanEqual():
                     new_operator = cst.LessThan()
+                case cst.Is():
+                    new_operator = cst.IsNot()
+                case cst.IsNot():
+                    new_operator = cst.Is()
+                case cst.In():
+                    new_operator = cst.NotIn()
+                case cst.NotIn():
+                    new_operator = cst.In()
                 case _:
-                    new_operator = comparison_op
+                    return None
 
             inverted_comparisons.append(
                 comparison_op.with_changes(operator=new_operator)
